@@ -254,7 +254,7 @@ func c24Body(sc c24Scenario) vs.Body {
 func TestVerif_C24(t *testing.T) {
 	r := kit.Start(t, "C24", "sched")
 	defer r.Finish()
-	r.Rule("E-SCHED on the real queue.Queue (queue.go instrumented from the current tree): per scenario, every schedule of writers/flusher/consumer/queue goroutine/batch timer within the deviation bounds (preemptions P, select-order deviations S, early time advances T); oracle: exactly-once, FIFO by sequence number, no split write, writes per batch <= batch size, flush channel closed exactly by its batch's Close, batch seq strictly increasing and equal to the max contained. distinct = distinct batch partitions observed")
+	r.Rule("E-SCHED on the real queue.Queue (queue.go instrumented from the current tree): per scenario, every schedule of writers/flusher/consumer/queue goroutine/batch timer within the deviation bounds (preemptions P, select-order deviations S, early time advances T); oracle: exactly-once, FIFO by sequence number, no split write, writes per batch <= batch size, flush channel closed exactly by its batch's Close, batch seq strictly increasing and equal to the max contained. distinct = distinct batch partitions observed; states = distinct happens-before state keys at scheduling decisions, summed over the shard processes; traces_validated_against_impl = executions re-run from their recorded schedule (1 in 16, plus every violating one) that gave the same observation, the same choice points and the same state keys")
 	scs := []c24Scenario{
 		{"2w-1x1-b2-timeout", [][]int{{1}, {1}}, 0, 2, 100 * time.Millisecond, true},
 		{"2w-2,1-b2-timeout", [][]int{{1, 2}, {1}}, 0, 2, 100 * time.Millisecond, true},
@@ -267,6 +267,9 @@ func TestVerif_C24(t *testing.T) {
 		opts.Workers = w
 	}
 	opts.NoStatePruning = os.Getenv("VSCHED_NOPRUNE") != ""
+	if n, err := strconv.Atoi(os.Getenv("VSCHED_REPLAY_EVERY")); err == nil {
+		opts.ReplayEvery = n
+	}
 	r.Set("bounds", fmt.Sprintf("total deviations (preemptions + select-order deviations + early time advances)<=%d, early time advances<=%d", opts.Deviations, opts.TimeDevs))
 	if r.Thorough() {
 		scs = append(scs, c24Scenario{"2w-flush-b2-notimeout", [][]int{{1, 1}, {1}}, 1, 2, 0, false})
@@ -276,6 +279,8 @@ func TestVerif_C24(t *testing.T) {
 		r.Eval(int(st.Executions))
 		r.Transition(int(st.ChoicePts))
 		r.Validated(int(st.Replays))
+		r.State(int(st.StatesSeen))
+		r.Add("replays_with_different_hb_state_keys", st.KeyNoise)
 		for o := range st.Outcomes {
 			r.Distinct(sc.name + ":" + o)
 		}
@@ -295,5 +300,6 @@ func TestVerif_C24(t *testing.T) {
 		}
 		sort.Strings(oks)
 		t.Logf("%s: execs=%d redundant=%d outcomes=%d maxdepth=%d states=%d pruned=%d capped=%v outcomes: %v", sc.name, st.Executions, st.Redundant, len(st.Outcomes), st.MaxDepth, st.StatesSeen, st.Pruned, st.Capped, oks)
+		t.Logf("%s: replays=%d divergences=%d replays with different state keys=%d", sc.name, st.Replays, len(st.Divergences), st.KeyNoise)
 	}
 }
